@@ -28,7 +28,7 @@ K_TYPED = 32
 SLACK = 64 * 1024
 MAXA = 1 << 26
 MAXM = 1 << 27
-CRASH = ("panic", "timeout", "abort", "overflow", "oom", "signal", "died")
+CRASH = ("panic", "ub", "timeout", "abort", "overflow", "oom", "signal", "died")
 
 # types defined in the harness binary: name -> (D-Bus signature, extended signatures whose encodings they accept)
 EXTRA = {
